@@ -15,7 +15,7 @@ EXPLANATION = (
     "assignment that installs the reversed graph is control-dependent on specs.directed == true; by reaching definitions, the "
     "un-reversed initial definition reaches a kernel call (or the closure that captures it) only along the specs.directed == false "
     "edge; the node-name lookup for the result uses the same graph value as the kernel.  R-C06-2: the result depends on `weighted` "
-    "and `wf_improved` and on the kernels.  R-C06-6: the scaling switch handed to the per-node formula is the caller's `wf_improved` at every call site.  R-C06-7: every definition reaching the return of the per-node formula, evaluated as arithmetic over r, T and n at a grid of points (reaching definitions; nothing is run), is 0, (r-1)/T or (r-1)/T*(r-1)/(n-1).  NOT decided: the formula's values, the Wasserman-Faust scaling arithmetic, 0 for "
+    "and `wf_improved` and on the kernels.  R-C06-6: the scaling switch handed to the per-node formula is the caller's `wf_improved` at every call site.  R-C06-7: every definition reaching the return of the per-node formula, evaluated as arithmetic over r, T and n at a grid of points (reaching definitions; nothing is run), is 0, (r-1)/T or (r-1)/T*(r-1)/(n-1).  R-C06-8: the kernels compare collection sizes with the node count only.  NOT decided: the formula's values, the Wasserman-Faust scaling arithmetic, 0 for "
     "unreachable nodes -- numerical facts outside static reach."
 )
 TRUSTED = ["rustc MIR construction", "Graph::reverse returns the reversed graph (C15)"]
@@ -144,6 +144,7 @@ def run(ctx):
     rule3(ctx, prog, flows, root, kcalls)
     rule6(ctx, prog, flows, root)
     rule7(ctx, prog, flows, root)
+    rule8(ctx, prog, flows, root)
     # R-C06-4: the value is (r-1)/sum, times (r-1)/(n-1): a quotient of counts and distances.  Nothing in the
     # definition limits or rounds it -- with weights below 1 it exceeds 1
     ctx.rule("R-C06-4", "the closeness formula applies no limiting or rounding operation (min / max / clamp / round ..) to the quotient")
@@ -302,3 +303,37 @@ def rule7(ctx, prog, flows, root):
 
 def ctx_has_violation(ctx, rid):
     return any(f.rule == rid and f.status in ("violation", "undecided") for f in ctx.findings)
+
+
+def rule8(ctx, prog, flows, root):
+    """the hop-count kernel stops early once every node has been reached: the size of its visited structure is compared
+    with the NODE count.  Compared with any other count of the graph (the edge count: a tree has fewer edges than nodes)
+    the search stops while nodes are still unreached and closeness is computed from a truncated distance list."""
+    ctx.rule("R-C06-8", "in the closeness kernels the size of a visited / result collection is compared only with the node count, never with an edge count")
+    n = 0
+    for p in sorted(prog.bodies):
+        b = prog.bodies[p]
+        r_ = b
+        while r_.kind == "closure":
+            r_ = prog.bodies[r_.item["parent"]]
+        if not r_.short.startswith("algorithms::centrality::closeness::"):
+            continue
+        fl = flows.of(b)
+        for st in b.stmts():
+            if not (st.k == "assign" and st.rv.k == "binop" and st.rv.j["op"] in ("Eq", "Ne", "Lt", "Le", "Gt", "Ge")):
+                continue
+            sides = []
+            for o in st.rv.ops:
+                if o.place is None:
+                    sides.append(set())
+                    continue
+                sl = fl.slice_local(fl._op_reads(o), data_only=True)
+                sides.append({b.blocks[nd[1]].term.callee.short.split("::")[-1] for nd in sl if nd[0] == "CALL" and b.blocks[nd[1]].term.callee})
+            counts = [x & {"number_of_nodes", "number_of_edges", "size", "get_all_edges", "get_all_nodes", "get_all_node_names"} for x in sides]
+            if not any(counts) or not any("len" in x for x in sides):
+                continue
+            n += 1
+            bad = sorted((counts[0] | counts[1]) & {"number_of_edges", "size", "get_all_edges"})
+            ctx.require(not bad, "R-C06-8", "count-compare|%s|%d" % (b.short.split("::")[-1], n), "%s compares a collection size with the node count" % b.short.split("::")[-1],
+                        "%s compares the size of a collection with %s: the early exit of the search then fires when as many nodes have been reached as the graph has EDGES -- on a graph with fewer edges than nodes (a tree, a path) deeper nodes are never reached and the closeness of the source is computed from a truncated list" % (b.short, "/".join(bad)), loc_str(st.span))
+    ctx.counters["count_comparisons_in_closeness_kernels"] = n
